@@ -52,7 +52,17 @@ def _expand(chunk):
                               dict(machine=mach.name, seed=seed, trace=list(trace) + [a]),
                               **v.detail)
                 continue
-            except Exception as e:  # unexpected exception out of the library
+            except BaseException as e:  # unexpected exception out of the library
+                from .run import TaskTimeout, arm_timer
+                if isinstance(e, TaskTimeout):
+                    # this one transition used up the CPU budget of the whole chunk
+                    rep.violation('timeout@' + str(a[0]),
+                                  'a transition did not finish: %s' % e,
+                                  dict(machine=mach.name, seed=seed, trace=list(trace) + [a]))
+                    arm_timer()
+                    continue
+                if not isinstance(e, Exception):
+                    raise
                 sig = mach.unexpected(e, a)
                 if sig is None:
                     rep.add('refused')
@@ -288,6 +298,8 @@ class Machine:
                 return None
             return 'unexpected %s: %s' % (type(e).__name__, str(e)[:200])
         return None
+        # (a TaskTimeout, being a BaseException, passes through to run.finish, which counts it
+        # as a reproduction)
 
 
 def _tuplify(x):
